@@ -233,7 +233,7 @@ class RetxRules(Rule):
                 base = delay - tm["jit"]
                 prev = getattr(rq, "_last_base", None)
                 if prev is not None and prev[1] == op.ci and base < prev[0] - 1e-5:
-                    fac = L.conns[rq.ci].bw[1] if rq.ci in L.conns else 2
+                    fac = getattr(rq, "bw_at_call", (0, 2))[1]
                     L.violate("C08", "R6", "gap-shrinks:factor%s1" % ("<" if fac < 1 else ">="),
                               "PUBLISH id %r: retry delay (jitter removed) shrank from %.5f to %.5f" % (rq.msgId, prev[0], base))
                 rq._last_base = (base, op.ci)
